@@ -119,6 +119,13 @@ def bool_codec_replay(which):
             r = avm.run(teal, avm.Ctx())
             if r.verdict != "approve" or list(r.logs) != [bytes([0x80 * v])]:
                 return {"input": {"value": bool(v)}, "problems": [f"Bool.encode() of {bool(v)} gives {r.verdict} {[bytes(x).hex() for x in r.logs]}, expected {bytes([0x80 * v]).hex()}"], "teal": teal}
+        elif which == "set":
+            for arg, want in ((bool(v), v), (pt.Int(v), v), (pt.Int(5 * v), v), (pt.Int(2 ** 64 - 1) if v else pt.Int(0), v)):
+                b = pt.abi.Bool()
+                teal = pt.compileTeal(pt.Seq(b.set(arg), pt.Log(pt.Itob(b.get())), pt.Approve()), pt.Mode.Application, version=6)
+                r = avm.run(teal, avm.Ctx())
+                if r.verdict != "approve" or list(r.logs) != [want.to_bytes(8, "big")]:
+                    return {"input": {"set": repr(arg) if isinstance(arg, bool) else "Int expression", "expected": want}, "problems": [f"Bool.set({arg!r}) then get() gives {r.verdict} {[bytes(x).hex() for x in r.logs]}, expected {want}"], "teal": teal}
         else:
             for start in (None, 0, 2):
                 buf = b"\x7f" * (start or 0) + bytes([0x80 * v | 0x55]) + b"\x7f"
@@ -170,7 +177,8 @@ def run(report: Report, tier, seed):
                            ("contracts.c06_uint", "UintSetExpr", "O6.18"),
                            ("contracts.c06_uint", "UintEncode", "O6.19"),
                            ("contracts.c06_uint", "BoolEncode", "O6.20"),
-                           ("contracts.c06_uint", "EncodeBoolSequence", "O6.21")])
+                           ("contracts.c06_uint", "EncodeBoolSequence", "O6.21"),
+                           ("contracts.c06_uint", "BoolSetLiteral", "O6.22"), ("contracts.c06_uint", "BoolSetExpr", "O6.23")])
     jobs = jobs_for(tier, seed)
     res = A.pool_map(A.encode_case, jobs)
     bad = [r for r in res if r["problems"]]
@@ -210,6 +218,8 @@ def run(report: Report, tier, seed):
     def search(fn, obs):
         if fn.endswith("_encode_bool_sequence"):
             return bool_sequence_replay()
+        if fn.endswith("Bool.set"):
+            return bool_codec_replay("set")
         if fn.endswith("Bool.encode"):
             return bool_codec_replay("encode")
         if fn.endswith("uint.uint_encode"):
